@@ -27,6 +27,7 @@ func propC14() Property {
 			{ID: "C14-R3", Desc: "integer scanner: digits only, non-empty, sign only in front, accumulation guarded", Min: 4, Run: c14R3},
 			{ID: "C14-R4", Desc: "float whitelist: digits, '.', '-' only, before the value is stored", Min: 3, Run: c14R4},
 			{ID: "C14-R5", Desc: "timestamp writers format the UTC wall clock", Min: 1, Run: c14R5},
+			{ID: "C14-R10", Desc: "the unsigned decimal is truncated, not rounded, to its scale", Min: 1, Run: c14R10},
 			{ID: "C14-R9", Desc: "decimals are rendered by the decimal type, never through float64", Min: 2, Run: c14R9},
 			{ID: "C14-R8", Desc: "a float is written as FormatFloat(receiver, 'f', -1, 64)", Min: 1, Run: c14R8},
 			{ID: "C14-R7", Desc: "timestamp fraction separator is '.', never time.Parse's comma", Min: 3, Run: c14R7},
@@ -213,6 +214,7 @@ func propC18() Property {
 			{ID: "C18-R4", Desc: "wall-clock components are read in the configured zone", Min: 6, Run: c18R4},
 			{ID: "C18-R5", Desc: "no decision arm of the schedule code is dead by contradiction", Min: 10, Run: c18R5},
 			{ID: "C18-R6", Desc: "start/end time comparisons have one polarity (start < end)", Min: 2, Run: c18R6},
+			{ID: "C18-R11", Desc: "weekly day counts equal the distance to the next end day for every weekday pair", Min: 2, Run: c18R11},
 			{ID: "C18-R10", Desc: "weekday membership does not depend on the order of the list", Min: 1, Run: c18R10},
 			{ID: "C18-R9", Desc: "configured times of day are compared with the wall clock of the instant", Min: 4, Run: c18R9},
 			{ID: "C18-R8", Desc: "weekly close on the end day depends on the end time", Min: 1, Run: c18R8},
